@@ -67,6 +67,11 @@ impl LockTime {
     pub fn is_satisfied_by(&self, height: Height, time: Time) -> (r: bool) ensures r == locktime_satisfied_by_height(*self, height_of(height)) { unimplemented!() }
     #[verifier::external_body]
     pub fn to_consensus_u32(self) -> (r: u32) ensures r == locktime_consensus(self) { unimplemented!() }
+    // bitcoin::absolute::LockTime: consensus values below 500_000_000 are block heights, the others UNIX times
+    #[verifier::external_body]
+    pub fn is_block_height(&self) -> (r: bool) ensures r == (locktime_consensus(*self) < 500_000_000) { unimplemented!() }
+    #[verifier::external_body]
+    pub fn is_block_time(&self) -> (r: bool) ensures r == (locktime_consensus(*self) >= 500_000_000) { unimplemented!() }
 }
 // script template parsers of tx/tx.rs
 pub uninterp spec fn spec_received_htlc_cltv(script: ScriptBuf, anchors: bool) -> Option<i64>;   // Some: parses as received HTLC
